@@ -54,8 +54,9 @@ ValidIn(ctx, name, v) ==
 
 \* ---- variables: the last definition of a name in the sheet wins; references are resolved component-wise ---------------
 \* a reference with a fallback resolves like one without when the variable is defined, and is kept as written when it is not
-VarRef == [x \in {"var(c)", "var(w)", "var(nope)", "var(w, 2px)", "var(nope, 2px)"} |->
-              CASE x = "var(c)" -> "c" [] x \in {"var(w)", "var(w, 2px)"} -> "w" [] OTHER -> "nope"]
+\* (variable names are case-insensitive: var(W) refers to w)
+VarRef == [x \in {"var(c)", "var(w)", "var(W)", "var(nope)", "var(w, 2px)", "var(nope, 2px)"} |->
+              CASE x = "var(c)" -> "c" [] x \in {"var(w)", "var(W)", "var(w, 2px)"} -> "w" [] OTHER -> "nope"]
 VarDecls(sheet) == FlattenSeq([i \in 1..Len(sheet) |-> IF sheet[i].k = "variables" THEN sheet[i].vars ELSE <<>>])
 Defined(V, n) == \E i \in 1..Len(V) : V[i].name = n
 ValueOf(V, n) == V[Max({i \in 1..Len(V) : V[i].name = n})].value
